@@ -12,12 +12,13 @@ def run(chk):
     recs = core.run_driver_parallel('pipeline', tier=chk.tier, seed=chk.seed,
                                     cases=core.run_cases('pipeline', chk.tier, chk.seed, {}), jobs=8, timeout=3000)
     chk.validate('pipeline', 'Trace_Pipeline', 'Trace_Pipeline.cfg', recs, driver='pipeline', jobs=14)
-    good = [r for r in recs if r['kind'] == 'scene' and r['exc'] == ''][0]
+    goods = [r for r in recs if r['kind'] == 'scene' and r['exc'] == '']
+    good = goods[0]
 
     def corrupt(r):
         r['gmap'] = r['gmap'][1:] + r['gmap'][:1]
         return r
-    core.binding_demo(chk, 'bind-global', 'Trace_Pipeline', 'Trace_Pipeline.cfg', good, corrupt, 'global_mapping')
+    core.binding_demo(chk, 'bind-global', 'Trace_Pipeline', 'Trace_Pipeline.cfg', good, corrupt, 'global_mapping', candidates=goods[1:])
     chk.assumptions = ['powers are summed by TLC over a frequency subsample of <= 33 bins of the beamformed contributions',
                        'separation quality is decided per generated scene (no theorem); feasibility margin > 20 dB']
 
